@@ -38,7 +38,11 @@ def make_P(inp):
     if api == 'propagator':
         from odak.learn.wave import propagator
         h, w = inp['shape'][-2:]
-        p = propagator(resolution=[h, w], wavelengths=[lam, lam * 1.2], pixel_pitch=dx, number_of_depth_layers=2, volume_depth=abs(z) + 1e-9,
+        apt = None
+        if inp.get('aperture'):
+            yy, xx = np.meshgrid(np.linspace(-1, 1, h), np.linspace(-1, 1, w), indexing='ij')
+            apt = torch.tensor(np.exp(-(xx ** 2 + yy ** 2) / 0.6), dtype=torch.float32)          # apodised (non-binary) aperture
+        p = propagator(resolution=[h, w], wavelengths=[lam, lam * 1.2], pixel_pitch=dx, number_of_depth_layers=2, volume_depth=abs(z) + 1e-9, aperture=apt,
                        image_location_offset=z, propagation_type=m, propagator_type=inp.get('ptype', 'forward'), back_and_forth_distance=2 * abs(z) + 1.0,
                        aperture_samples=[2, 2, 1, 1])
         return lambda x: p(x if isinstance(x, torch.Tensor) else torch.tensor(x, dtype=torch.complex64), inp.get('channel', 1), inp.get('depth', 1))
@@ -120,7 +124,7 @@ def gen_inputs(ctx, n):
                 out.append(('shift', dict(base, shift=[rng.randint(-3, 3), rng.randint(-3, 3)])))
         if i % 2 == 0 and min(shape) >= 5:
             for m, pt in (('Bandlimited Angular Spectrum', 'back and forth'), ('Angular Spectrum', 'forward'), ('Transfer Function Fresnel', 'back and forth')):
-                base = {'api': 'propagator', 'method': m, 'ptype': pt, 'shape': shape, 'lam': lam, 'dx': dx, 'z': abs(z), 'fseed': rng.randrange(10 ** 6), 'channel': i % 2, 'depth': (i // 2) % 2}
+                base = {'api': 'propagator', 'method': m, 'ptype': pt, 'shape': shape, 'lam': lam, 'dx': dx, 'z': abs(z), 'fseed': rng.randrange(10 ** 6), 'channel': i % 2, 'depth': (i // 2) % 2, 'aperture': m != 'Angular Spectrum'}
                 out.append(('linear', base))
     return out
 
